@@ -189,7 +189,7 @@ class Instance:
     def __repr__(self):
         return f"Inst#{self.id}<{self.name}>"
 
-    def callees(self, kinds=("call", "drop", "reify", "fnptr_const")):
+    def callees(self, kinds=("call", "drop", "reify", "fnptr_const", "fnitem")):
         out = []
         for e in self.edges:
             if e["k"] in kinds and "to" in e:
@@ -287,7 +287,7 @@ class Program:
         return bytes.fromhex(hx)
 
     # ---- call graph
-    def reach(self, root_ids, kinds=("call", "drop", "reify", "fnptr_const", "unsize")):
+    def reach(self, root_ids, kinds=("call", "drop", "reify", "fnptr_const", "unsize", "fnitem")):
         seen = {}
         stack = []
         for r in root_ids:
